@@ -67,8 +67,13 @@ func genBody(t *rapid.T) any {
 	switch rapid.IntRange(0, 9).Draw(t, "bodykind") {
 	case 0, 1:
 		// sizes straddling the buffer growth steps and the compression threshold
-		base := rapid.SampledFrom([]int{0, 1, 1000, 1023, 1024, 1025, 4095, 4096, 4097, 8192, 16384, 65535, 65536, 131072, 262144, 300000}).Draw(t, "size")
+		base := rapid.SampledFrom([]int{0, 1, 1000, 1023, 1024, 1025, 2048, 4095, 4096, 4097, 8192, 16384, 65535, 65536, 131072, 262144, 300000}).Draw(t, "size")
 		n := base + rapid.IntRange(-3, 3).Draw(t, "jitter")
+		if rapid.IntRange(0, 2).Draw(t, "any-size") == 0 {
+			// not only the boundaries: any size up to a few buffer lengths (decoders may treat
+			// "large" binaries differently from some threshold that no constant here names)
+			n = rapid.IntRange(0, 20000).Draw(t, "uniform-size")
+		}
 		if n < 0 {
 			n = 0
 		}
